@@ -275,6 +275,12 @@ func gen(g *core.G) {
 		}
 	}
 
+	// ---- (2') the recursion guard of aliases (IsInstance): one alias object meeting the same value twice ---------------
+	for _, gc := range lg.GuardCases(400 * g.Scale) {
+		g.Emit("inst " + gc.A.String() + " " + gc.V.String())
+		g.Emit("inst " + gc.A.String() + " " + lg.MutateVal(gc.V).String())
+	}
+
 	// ---- (3) malformed stream (implementation only) ----------------------------------------------------------------
 	odd := []string{"(int 2 1)", "(strsz 3 1)", "(arr any 5 2)", "(var str)", "(struct (x f str))", "(obj 3)", "(enum t x41)", "(pat x28)",
 		"(strsz 0 9223372036854775807)", "(tup (str) (2 1))", "(hash str any -1 1)"}
